@@ -35,6 +35,7 @@ type hPeer struct {
 	forceGood   bool
 	received    int
 	connected   bool
+	actorDone   chan struct{} // closed when the peer's scripted connect/leave steps are over
 }
 
 func newPeer(st *state, idx int, spec PeerSpec) *hPeer {
@@ -43,6 +44,8 @@ func newPeer(st *state, idx int, spec PeerSpec) *hPeer {
 		script: append([]Outcome(nil), spec.Script...),
 		disc:   make(chan struct{}),
 		subs:   map[int]chan wire.Message{},
+
+		actorDone: make(chan struct{}),
 	}
 }
 
